@@ -32,6 +32,7 @@ def S(T, ext, summand):
 
 def check(ctx):
     repo = ctx.repo
+    ctx.rule("R20.10", "no value is cast into a dtype inherited from the caller's arrays (integer positions are legal input)", 1)
     ctx.rule("R20.1", "vector kernel == mu0/(4 pi) sum_k a_k (K x r)/r^3 component by component, over all sources", 3)
     ctx.rule("R20.2", "z-only kernel == component 2 of the vector kernel", 1)
     ctx.rule("R20.3", "every output is a sum of terms homogeneous of degree one in the currents (superposition)", 2)
@@ -45,6 +46,10 @@ def check(ctx):
     kernels(ctx)
     units(ctx)
     decomposition(ctx)
+    from ..effects import no_inherited_dtype_casts
+    no_inherited_dtype_casts(ctx, "R20.10", "with integer-typed positions a non-integral height zs (or any fill value) is truncated: the field is evaluated "
+                                            "at the wrong points and disagrees with the direct Biot-Savart sum",
+                             modules=("tdgl.em", "tdgl.solution", "tdgl.sources", "tdgl.parameter", "tdgl.fluxoid", "tdgl.distance"))
     parts_converted(ctx)
     loop_potential(ctx)
     distances(ctx)
